@@ -8,6 +8,7 @@ from ..interp import ReturnSignal, Tr
 from .common import run_configs
 
 LEVEL = "other"
+_TIER = "quick"
 CS = "r1cs::constraint_system::ConstraintSystem<<G as ark_ec::AffineRepr>::ScalarField>"
 PRV = "<r1cs::prover::Prover<'g, G, T> as " + CS + ">::"
 VER = "<r1cs::verifier::Verifier<G, T> as " + CS + ">::"
@@ -154,6 +155,10 @@ def wrapper_delegates(F, wpath_prefix, inner_field, method):
 
 
 def body(ck, F, cfg):
+    if _TIER == "thorough" and cfg == "default":
+        from .. import witness
+
+        witness.require(ck, ['W4'], "WITNESS")
     # R16.1 transition summaries, per method and per pending case
     for method in ("multiply", "allocate", "allocate_multiplier", "multipliers_len"):
         for pend_name, pend in (("pending=None", None), ("pending=Some(p)", p)):
@@ -255,6 +260,8 @@ def body(ck, F, cfg):
 
 
 def run(tier):
+    global _TIER
+    _TIER = tier
     ck = run_configs(
         "C16", tier, LEVEL, body,
         explanation="TWIN: every constraint-system method of both roles is interpreted on a symbolic state (gate count c, pending gate None / Some(p), q constraints) and reduced to a "
